@@ -62,7 +62,7 @@ def _run_case(spec):
     n_inits = int(opt.init.n_inits)
     obs, exc = drive.run_driver(opt, obj, clock, spec["calls"], spec.get("steps_api", False))
     lit = None
-    if exc is None:
+    if exc is None and not spec.get("monitor_only"):
         cw = drive.CaseWriter(space)
         lit = cw.dcase(n_inits, obj, clock.log, spec["calls"], obs, spec.get("steps_api", False))
     return dict(obs=obs, exc=exc, obj=obj, clock=clock, opt=opt, lit=lit, n_inits=n_inits, phase="search")
